@@ -8,7 +8,7 @@ fn main() {
         eprintln!("usage: fi-replay <harness> <cfg> <property-mask> <hex-script>");
         std::process::exit(2);
     }
-    let cfg: u8 = args[2].parse().expect("cfg");
+    let cfg: u32 = args[2].parse().expect("cfg");
     let mask: u32 = args[3].parse().expect("mask");
     let hex = args[4].as_bytes();
     let mut bytes = Vec::new();
